@@ -26,11 +26,17 @@ import gen_c16
 import wire
 
 RULE = ('case = one generated pipeline (1-4 stages + optional $out; $facet with 2-3 branches of '
-        '0-3 stages; grammar weighted towards document-editing stages) over a generated state of '
+        '0-3 stages; grammar weighted towards document-editing stages; in the rich stream every '
+        'stage that takes a document of options is generated with all the options it accepts: '
+        '$graphLookup with restrictSearchWithMatch / depthField / maxDepth / expression-valued '
+        'startWith / dotted connect fields, $bucket with default / output, and every filter '
+        'document of the pipeline ($match, restrictSearchWithMatch) drawn from the filter grammar: '
+        'operator documents, $in / $all lists, $elemMatch, $not, $and / $or / $nor lists, $expr) '
+        'over a generated state of '
         'two or three collections, run twice from one pipeline object; non-trivial = the pipeline '
-        'contains a document-editing stage ($addFields/$set on a dotted path, $lookup, $unwind, '
-        '$sample, $out, or $facet with an editing branch) and the first run does not raise; '
-        'distinct = by hash of (state, pipeline)')
+        'contains a document-editing stage ($addFields/$set on a dotted path, $lookup, '
+        '$graphLookup, $unwind, $sample, $out, or $facet with an editing branch) and the first run '
+        'does not raise; distinct = by hash of (state, pipeline)')
 
 ASSUMPTIONS = [
     '$out: the returned documents carry the generated _ids that the target collection holds '
@@ -38,9 +44,10 @@ ASSUMPTIONS = [
     '$out is generated only as the last top-level stage; a $out whose insert_many raises '
     '(duplicate _id after $unwind) is not judged for target == output',
     'the heap model allocates identities of a run in a run-local name space (fresh by '
-    'construction); $graphLookup, $bucket, expression operators other than field paths, $$ROOT, '
+    'construction); $graphLookup, $bucket, $group, $match filters other than equalities on '
+    'top-level fields, expression operators other than field paths, $$ROOT, '
     '$literal, document constructors and constants are outside the modelled fragment (direct '
-    'oracles only)',
+    'oracles only: they are generated in the rich stream, which is never sent to the driver)',
     'correspondence: after a run that raises (same error on both sides) the pipeline object and '
     'the collections are not compared with the model, which does not keep the writes a failed '
     'call had already made; runs containing $sample are compared on raised / did not raise and '
@@ -51,7 +58,7 @@ ASSUMPTIONS = [
     'raises on the drawn documents) may differ as long as the pipeline object is unchanged',
 ]
 
-EDITING = {'$lookup', '$unwind', '$sample', '$out', '$addFields', '$set'}
+EDITING = {'$lookup', '$graphLookup', '$unwind', '$sample', '$out', '$addFields', '$set'}
 # classes by which the judge NAMES a failure (all four were known findings of /repo and are
 # repaired; a class is excused only while known_findings.json lists it with status "known",
 # otherwise the named failure is a VIOLATION)
@@ -132,8 +139,11 @@ class Judge(object):
 
     def bad(self, case, kind, detail, rank_extra=0):
         r = render(case)
+        # most convincing first = the smallest failing input (not the shortest description of
+        # what went wrong with it); for one input, in the order of the clauses of the property
+        rank = rank_extra + len(json.dumps(r, default=repr))
         r.update(kind=kind, detail=detail)
-        self.ctx.violation(r, rank=rank_extra + len(json.dumps(r, default=repr)))
+        self.ctx.violation(r, rank=rank)
 
     # -- the property, stated on one side's answers ------------------------------------
     def judge(self, case, ans, extra):
@@ -165,7 +175,10 @@ class Judge(object):
         for c in sorted(cls1 | cls2, key=str):
             if c is None:
                 self.bad(case, 'the caller\'s pipeline object was modified',
-                         {'after_run_1': main['pipes'][0], 'after_run_2': main['pipes'][1]})
+                         {'changed_at': [list(x) for x in L.diff_paths(p, dec(main['pipes'][0])) +
+                                         L.diff_paths(p, dec(main['pipes'][1]))][:6],
+                          'pipeline_after_run_1': wire.pretty(dec(main['pipes'][0])),
+                          'pipeline_after_run_2': wire.pretty(dec(main['pipes'][1]))})
             else:
                 self.finding(case, c, 'pipeline modified: ' + main['pipes'][0])
             verdicts.append('pipe:' + str(c))
